@@ -7,6 +7,7 @@ import re
 import subprocess
 import time
 
+import ambient
 from common import REPO, VERIF, GOENV, COQ
 from corechecks import proof_step, finish_with_proof_status, rewrite_with_replay_cmd, Stream
 from gencases import PolicyGen, parse_header, hexs, OPS, M64
@@ -97,6 +98,11 @@ C12_THEOREMS = ["C12_agrees_with_oracles_by_number", "C12_five_tables", "C12_tab
                 "C12_alias_pairs", "C12_getinfo_shape", "C12_unsupported", "C12_supported_set"]
 
 
+def rng_choice_key(rng, a):
+    """the record handed to the parser: the architecture itself or, for x86_64 code, sometimes the x32 record"""
+    return "X32" if a == "X86_64" and rng.random() < 0.3 else a
+
+
 def check_C12(ctx, replay=None):
     rng = random.Random(ctx.seed * 1000003 + 12)
     gen, ok = setup(ctx, "C12.v", C12_THEOREMS)
@@ -108,14 +114,37 @@ def check_C12(ctx, replay=None):
     runs = 8 if ctx.tier == "quick" else 40
     outs = set()
     first = None
+    used_outs = {}
     for i in range(runs):
-        r = ctx.run_harness(["tables"], "")
+        if i % 2 == 1:
+            # ... and after the process has put the module to work on the records: lookups, compilations (also refused
+            # ones) for every record, the profiler's listing parser on listings with known and unknown syscall numbers
+            import disasmchecks as D
+            lrng = random.Random(ctx.seed * 7919 + i)
+            ls = []
+            tabs0 = {}
+            for ln in (first or "").splitlines():
+                f = ln.split()
+                if f[0] == "N":
+                    tabs0.setdefault(f[1], {})[int(f[2])] = unhex(f[3])
+            for a in ("X86_64", "I386", "X86_64", "I386"):
+                if tabs0.get(a):
+                    text, _, _ = D.SiteModel(lrng, a, tabs0[a]).listing()
+                    ls.append("L %s x%s" % (rng_choice_key(lrng, a), text.hex()))
+            uinp = "\n".join(ls) + "\n"
+            r = ctx.run_harness(["tables", "after-use"], uinp)
+            used_outs[r.stdout] = uinp
+        else:
+            r = ctx.run_harness(["tables"], "")
         outs.add(r.stdout)
         first = first or r.stdout
     if len(outs) != 1:
         nbad += 1
-        p = ctx.violation("counterexample", dict(what="arch tables differ between process runs (map-order dependence)",
-                                                 runs=runs, distinct=len(outs)), True)
+        changed = [u for o, u in used_outs.items() if o != first]
+        p = ctx.violation("counterexample", dict(what="arch tables differ between process runs (map-order dependence)" if not changed else
+                                                 "the tables of package arch read differently after the process used the module (lookups, compilations for every record, the profiler's listing parser on the listings given): they are shared mutable state",
+                                                 runs=runs, distinct=len(outs), listings=changed[0][:6000] if changed else None,
+                                                 replay_hint="harness tables after-use < listings  vs  harness tables" if changed else None), True)
         rewrite_with_replay_cmd(ctx, p)
     recs, nums, names = {}, {}, {}
     for ln in first.splitlines():
@@ -342,6 +371,13 @@ Print rt_count_ok.
             nbad += 1
             p = ctx.violation("counterexample", dict(what="GetInfo panicked", input_hex=b.hex()), True)
             rewrite_with_replay_cmd(ctx, p)
+    if not replay or replay.get("ambient"):
+        # the record an empty name resolves to is the build's own, whatever the environment or the kernel's uname say
+        from corechecks import ambient_passes
+        nv = len(ctx.violations)
+        ambient_passes(ctx, "C12", ["names"], replay=replay if replay and replay.get("ambient") else None, npol=(6, 30), nev=3)
+        nbad += sum(1 for _, nf in ctx.violations[nv:] if not nf)
+        evaluations += ctx.coverage.get("hostile_surroundings", {}).get("programs", 0)
     ctx.coverage.update(dict(
         evaluations=evaluations, distinct_nontrivial=len(set(b for (b, st, k) in obs if st == "OK")),
         rule="table entries read back from the running package in %d fresh processes (both maps of all 16 records) and compared with the regenerated tables inside Coq; arch.GetInfo on every alias in random letter-case patterns, Unicode look-alikes, near-misses and random strings, compared with get_info evaluated by vm_compute over the regenerated alias list; non-trivial = distinct spellings that resolve to a table" % runs,
@@ -749,6 +785,11 @@ def check_C19(ctx, replay=None):
                 f.write("\n")
         nbad += nb
         cross[ga or "host"] = int(res["summary"]["cases"])
+    if not replay or replay.get("ambient"):
+        from corechecks import ambient_passes
+        nv = len(ctx.violations)
+        ambient_passes(ctx, "C19", ["single_cond", "names", "mixed"], replay=replay if replay and replay.get("ambient") else None)
+        nbad += sum(1 for _, nf in ctx.violations[nv:] if not nf)
     # translator cross-check: the running (host) build's constants vs the regenerated record of the host target
     r = ctx.run_harness(["consts"], "")
     host = {}
@@ -842,6 +883,9 @@ def check_C13(ctx, replay=None):
         defect = rng.choice(PolicyGen.DEFECTS) if rng.random() < 0.1 else None
         pol = pg.policy(archname=an, kind=kind, defect=defect)
         le = rng.randint(0, 1)
+        from corechecks import host_goarch
+        if ambient.EXPECTED_NATIVE.get(host_goarch()) == an and rng.random() < 0.4:
+            an = "NATIVE"       # the architecture is left to the library (the build's own)
         lines.append("P d%d %d %s %s" % (i, le, an, PolicyGen.tokens(pol)))
         if not defect and pol["groups"] and rng.random() < 0.1:
             # policies that differ only in one group's (unnamed) action: none may influence the other
@@ -868,6 +912,23 @@ def check_C13(ctx, replay=None):
         orders.append(other)
         r2 = ctx.run_harness(["determ"], "\n".join(other) + "\n")
         runs.append(r2.stdout)
+    # and in hostile surroundings (lib/ambient.py): every environment variable the sources could ask for is set, the
+    # kernel reports another machine and release - the programs are functions of the policy value alone
+    hostile = [(ambient.noise_env(GOENV), None)] + [(ambient.noise_env(GOENV), pre) for pre in ambient.personality_prefixes()[:1 if q else 2]]
+    for (henv, pre) in hostile:
+        orders.append(lines)
+        r3 = ctx.run_harness(["determ"], inp, env=henv, prefix=pre, timeout=1800)
+        if r3.returncode != 0:
+            for ln in lines[:300]:
+                r4 = ctx.run_harness(["determ"], ln + "\n", env=henv, prefix=pre, timeout=120)
+                if r4.returncode != 0:
+                    bad("a process in another environment dies while compiling this policy", case=ln, stderr=r4.stderr[-1500:], prefix=pre or [],
+                        environment={k: v for k, v in henv.items() if os.environ.get(k) != v})
+                    break
+            else:
+                bad("a process in another environment dies while compiling the policies of this run", stderr=r3.stderr[-1500:], prefix=pre or [],
+                    environment={k: v for k, v in henv.items() if os.environ.get(k) != v})
+        runs.append(r3.stdout)
     first = [ln.split() for ln in runs[0].splitlines() if ln.startswith("D ")]
     byid = {f[1]: f for f in first}
     line_of = {ln.split()[1]: ln for ln in lines}
@@ -882,8 +943,11 @@ def check_C13(ctx, replay=None):
             if f and f[0] == "D" and f[1] in byid and (f[4] != byid[f[1]][4] or f[5] != byid[f[1]][5]):
                 o = orders[k]
                 pos = next((n for n, ln2 in enumerate(o) if ln2.split()[1] == f[1]), 0)
-                bad("a process that compiled the same policies in another order compiled this one to a different program (or printed a value differently)", case=line_of.get(f[1]),
-                    first=byid[f[1]][4:], other=f[4:], cases=o[max(0, pos - 40):pos + 1])
+                hk = k - nproc
+                bad("a process that compiled the same policies in another order compiled this one to a different program (or printed a value differently)" if hk < 0 else
+                    "a process in another environment (variables set: see environment; command prefix: see prefix) compiled this policy to a different program (or printed a value differently)",
+                    case=line_of.get(f[1]), first=byid[f[1]][4:], other=f[4:], cases=o[max(0, pos - 40):pos + 1] if hk < 0 else [line_of.get(f[1])],
+                    **({} if hk < 0 else dict(prefix=hostile[hk][1] or [], environment={k2: v2 for k2, v2 in hostile[hk][0].items() if os.environ.get(k2) != v2})))
     # first uses of the library happening concurrently, in fresh processes (race build): lazy initialisation and
     # "remember what was asked" caches are exercised before anything has warmed them up
     nfirst = 6 if q else 40
@@ -902,6 +966,13 @@ def check_C13(ctx, replay=None):
             bad("concurrent first uses of the library gave results that differ from a sequential repeat: " + rf.stdout[:600], variant=v + ctx.seed * 100)
             break
         first_ok += 1
+    if not replay or replay.get("ambient"):
+        # what a policy compiles to is a function of the value and the build: 64- and 32-bit builds in hostile
+        # surroundings against the extracted model
+        from corechecks import ambient_passes
+        nv = len(ctx.violations)
+        ambient_passes(ctx, "C13", ["names", "cond", "mixed"], replay=replay if replay and replay.get("ambient") else None)
+        nbad += sum(1 for _, nf in ctx.violations[nv:] if not nf)
     # the text forms of all flag values in fresh processes
     texts = set()
     for _ in range(4 if q else 20):
